@@ -17,7 +17,7 @@ func init() {
 			"(4) each of Launched/Registered/Initialized is set true at exactly one site, dominated by its observable preconditions (all literals listed in the rows); " +
 			"(5) capacity errors lead to Delete of the NodeClaim on every path and never to a returned instance.",
 		NotCovered: []string{"duplicate launches across controller restarts (the cache is in memory; the property says 'while the controller keeps running')", "idempotence of the provider", "freshness of the informer cache beyond the launch cache bridge"},
-		Rules: c14Rules,
+		Rules:      c14Rules,
 	})
 }
 
@@ -64,7 +64,7 @@ func c14Rules(tier string) []Rule {
 		)},
 		// the cache entry is dropped only once Launched is true (persisted)
 		DOM{ID: "C14.DOM1c", Fn: launch, Sink: `^call \(\*github\.com/patrickmn/go-cache\.cache\)\.Delete\(`, Gates: gates(
-			G(`+^\(\*opkg/status\.Condition\)\.IsTrue\(`+cond(`\$2`, "Launched")+`\)$`),
+			G(`+^\(\*opkg/status\.Condition\)\.IsTrue\(` + cond(`\$2`, "Launched") + `\)$`),
 		)},
 		WMC{ID: "C14.WMC3", Sink: `^call \(\*github\.com/patrickmn/go-cache\.cache\)\.(Delete|Flush|DeleteExpired)\(\$0\.cache\.cache`, Allowed: []string{launch}, Note: "only Launch.Reconcile evicts launch-cache entries"},
 		// launchNodeClaim returns an instance only when Create succeeded
@@ -104,26 +104,26 @@ func c14Rules(tier string) []Rule {
 		WMC{ID: "C14.WMC2d", Sink: `^call \(opkg/status\.ConditionSet\)\.Set\(\(\*apis/v1\.NodeClaim\)\.StatusConditions\(`,
 			Allowed: []string{launch, reg, ini}},
 		DOM{ID: "C14.DOM6a", Fn: launch, Sink: `^call \(opkg/status\.ConditionSet\)\.Set\(\(\*apis/v1\.NodeClaim\)\.StatusConditions\(.*\), ` + cond(`\$2`, "Launched") + `\)$`, Gates: gates(
-			G(`-^\(\*opkg/status\.Condition\)\.IsUnknown\(`+cond(`\$2`, "Launched")+`\)$`))},
+			G(`-^\(\*opkg/status\.Condition\)\.IsUnknown\(` + cond(`\$2`, "Launched") + `\)$`))},
 		DOM{ID: "C14.DOM6b", Fn: reg, Sink: `^call \(opkg/status\.ConditionSet\)\.Set\(\(\*apis/v1\.NodeClaim\)\.StatusConditions\(.*\), ` + cond(`\$2`, "Registered") + `\)$`, Gates: gates(
-			G(`-^\(\*opkg/status\.Condition\)\.IsUnknown\(`+cond(`\$2`, "Registered")+`\)$`))},
+			G(`-^\(\*opkg/status\.Condition\)\.IsUnknown\(` + cond(`\$2`, "Registered") + `\)$`))},
 		DOM{ID: "C14.DOM6c", Fn: ini, Sink: `^call \(opkg/status\.ConditionSet\)\.Set\(\(\*apis/v1\.NodeClaim\)\.StatusConditions\(.*\), ` + cond(`\$2`, "Initialized") + `\)$`, Gates: gates(
-			G(`-^\(\*opkg/status\.Condition\)\.IsUnknown\(`+cond(`\$2`, "Initialized")+`\)$`))},
+			G(`-^\(\*opkg/status\.Condition\)\.IsUnknown\(` + cond(`\$2`, "Initialized") + `\)$`))},
 
 		// ---- Registered
 		DOM{ID: "C14.DOM3", Fn: reg, Sink: setTrue("Registered"),
 			Stable: []string{`^lo\.IsEmpty\[cr/reconcile\.Result\]\(\(\*life\.Registration\)\.checkRegistrationHooks\(\$0, \$2\)#0\)$`, `^\(\*life\.Registration\)\.checkRegistrationHooks\(\$0, \$2\)#1 == nil$`},
 			Gates: gates(
-			G(`+^\(\*opkg/status\.Condition\)\.IsUnknown\(`+cond(`\$2`, "Registered")+`\)$`),
-			G(`+^utils/nodeclaim\.NodeForNodeClaim\(\$0\.kubeClient, \$2\)#1 == nil$`),
-			G(`+^lo\.IsEmpty\[cr/reconcile\.Result\]\(\(\*life\.Registration\)\.checkRegistrationHooks\(\$0, \$2\)#0\)$`),
-			G(`+^\(\*life\.Registration\)\.checkRegistrationHooks\(\$0, \$2\)#1 == nil$`),
-			G(`+^\(k8s\.io/apimachinery/third_party/forked/golang/reflect\.Equalities\)\.DeepEqual\(apim/api/equality\.Semantic\.Equalities, <\*corev1\.Node>\(\*corev1\.Node\)\.DeepCopy\(utils/nodeclaim\.NodeForNodeClaim\(\$0\.kubeClient, \$2\)#0\), <\*corev1\.Node>utils/nodeclaim\.NodeForNodeClaim\(\$0\.kubeClient, \$2\)#0\)$`,
-				`+^iface:\(cr/client\.Writer\)\.Patch\(\$0\.kubeClient, <\*corev1\.Node>utils/nodeclaim\.NodeForNodeClaim\(\$0\.kubeClient, \$2\)#0, cr/client\.MergeFromWithOptions\(.* == nil$`),
-			// the registered label was written and the unregistered taint rejected on the node object that is patched
-			G(`instr:^mapupdate utils/nodeclaim\.NodeForNodeClaim\(\$0\.kubeClient, \$2\)#0\.ObjectMeta\.Labels\["karpenter\.sh/registered"\] = "true"$`),
-			G(`instr:^store utils/nodeclaim\.NodeForNodeClaim\(\$0\.kubeClient, \$2\)#0\.Spec\.Taints = lo\.Reject\[corev1\.Taint, \[\]corev1\.Taint\]\(utils/nodeclaim\.NodeForNodeClaim\(\$0\.kubeClient, \$2\)#0\.Spec\.Taints, `),
-		)},
+				G(`+^\(\*opkg/status\.Condition\)\.IsUnknown\(`+cond(`\$2`, "Registered")+`\)$`),
+				G(`+^utils/nodeclaim\.NodeForNodeClaim\(\$0\.kubeClient, \$2\)#1 == nil$`),
+				G(`+^lo\.IsEmpty\[cr/reconcile\.Result\]\(\(\*life\.Registration\)\.checkRegistrationHooks\(\$0, \$2\)#0\)$`),
+				G(`+^\(\*life\.Registration\)\.checkRegistrationHooks\(\$0, \$2\)#1 == nil$`),
+				G(`+^\(k8s\.io/apimachinery/third_party/forked/golang/reflect\.Equalities\)\.DeepEqual\(apim/api/equality\.Semantic\.Equalities, <\*corev1\.Node>\(\*corev1\.Node\)\.DeepCopy\(utils/nodeclaim\.NodeForNodeClaim\(\$0\.kubeClient, \$2\)#0\), <\*corev1\.Node>utils/nodeclaim\.NodeForNodeClaim\(\$0\.kubeClient, \$2\)#0\)$`,
+					`+^iface:\(cr/client\.Writer\)\.Patch\(\$0\.kubeClient, <\*corev1\.Node>utils/nodeclaim\.NodeForNodeClaim\(\$0\.kubeClient, \$2\)#0, cr/client\.MergeFromWithOptions\(.* == nil$`),
+				// the registered label was written and the unregistered taint rejected on the node object that is patched
+				G(`instr:^mapupdate utils/nodeclaim\.NodeForNodeClaim\(\$0\.kubeClient, \$2\)#0\.ObjectMeta\.Labels\["karpenter\.sh/registered"\] = "true"$`),
+				G(`instr:^store utils/nodeclaim\.NodeForNodeClaim\(\$0\.kubeClient, \$2\)#0\.Spec\.Taints = lo\.Reject\[corev1\.Taint, \[\]corev1\.Taint\]\(utils/nodeclaim\.NodeForNodeClaim\(\$0\.kubeClient, \$2\)#0\.Spec\.Taints, `),
+			)},
 		DOM{ID: "C14.DOM3b", Fn: reg, Sink: `^mapupdate .*\.ObjectMeta\.Labels\["karpenter\.sh/registered"\] = "true"$`, Gates: gates(
 			G(`+^lo\.IsEmpty\[cr/reconcile\.Result\]\(\(\*life\.Registration\)\.checkRegistrationHooks\(\$0, \$2\)#0\)$`),
 			G(`+^\(\*life\.Registration\)\.checkRegistrationHooks\(\$0, \$2\)#1 == nil$`),
